@@ -14,10 +14,19 @@ class Console:
         self.print_error("cannot remove %s" % path)
 
     def print_error(self, msg):
-        self.err.write(format_error_msg(self.program_name, msg))
+        _write(self.err, format_error_msg(self.program_name, msg))
 
     def print_dry_run(self, path):
-        self.out.write("would remove %s\n" % path)
+        _write(self.out, "would remove %s\n" % path)
 
     def print_removing(self, path):
-        self.out.write("removing %s\n" % path)
+        _write(self.out, "removing %s\n" % path)
+
+
+def _write(stream, text):
+    try:
+        stream.write(text)
+    except UnicodeEncodeError:
+        # a file name that cannot be written in the encoding of the terminal:
+        # show it escaped instead of aborting in the middle of the purge
+        stream.write(text.encode('ascii', 'backslashreplace').decode('ascii'))
